@@ -587,6 +587,11 @@ class Engine:
                 if b.k == "tuple" and len(b.t) == 1:
                     return SV("V", T.snoc(self.as_V(a), self.as_V(b.t[0])), meta={"seq": True})
                 return SV("V", T.scat(self.as_V(a), self.as_V(b)), meta={"seq": True})
+            if a.k == "V" and b.k == "V":
+                num_a = self.entails(fr.st, z3.Or(T.is_VInt(a.t), T.is_VReal(a.t), T.is_VBool(a.t)), timeout=300)
+                if not num_a:
+                    # operand kinds only known dynamically: integer addition or sequence concatenation, by tag
+                    return mk_V(T.padd(a.t, b.t))
         if isinstance(op, ast.Mult):
             if a.k == "tuple" and len(a.t) == 1 and b.k in ("int", "bool", "V"):
                 return SV("V", T.srep(self.as_V(a.t[0]), self.as_int(b, fr)), meta={"seq": True})
@@ -919,13 +924,13 @@ class Engine:
         st.env = saved
         d = z3.Const(fresh_name("dcomp"), V)
         rng = z3.And(0 <= i, i < spec.length)
-        st.assume(z3.ForAll([i], z3.Implies(rng, z3.And(T.mhas(d, k), T.mat(d, k) == v)), patterns=[z3.MultiPattern(k)] if False else [T.mhas(d, k)]))
+        st.assume(z3.ForAll([i], z3.Implies(rng, z3.And(T.mhas(d, k), T.mat(d, k) == v)), patterns=[T.mhas(d, k), T.mat(d, k)]))
         kk = z3.Const(fresh_name("kk"), V)
         wit = z3.Function(fresh_name("dwit"), V, z3.IntSort())
         i2 = wit(kk)
         st.assume(z3.ForAll([kk], z3.Implies(T.mhas(d, kk), z3.And(0 <= i2, i2 < spec.length, z3.substitute(k, (i, i2)) == kk)),
                             patterns=[T.mhas(d, kk)]))
-        st.assume(T.is_VObj(d))
+        st.assume(z3.And(T.is_VObj(d), T.tag(d) == T.TAG["dict"]))
         self.assume_note("dict comprehension keys assumed pairwise distinct over the iterable (later duplicates would win)")
         return SV("V", d, meta={"coll": "map", "keys_from": (spec, k, i)})
 
@@ -986,7 +991,17 @@ class Engine:
             if coll in ("map", "set"):
                 ks = T.mkeys(t)
                 return IterSpec(T.slen(ks), lambda i: mk_V(T.sget(ks, i)), desc="keys")
-            return IterSpec(T.slen(t), lambda i: mk_V(T.sget(t, i)), desc="seq")
+            if coll == "seq" or (x.meta or {}).get("seq"):
+                return IterSpec(T.slen(t), lambda i: mk_V(T.sget(t, i)), desc="seq")
+            seqtag = z3.And(T.is_VObj(t), T.tag(t) == T.TAG["tuple"])
+            maptag = z3.And(T.is_VObj(t), z3.Or(T.tag(t) == T.TAG["dict"], T.tag(t) == T.TAG["set"]))
+            if self.entails(fr.st, seqtag, timeout=500):
+                return IterSpec(T.slen(t), lambda i: mk_V(T.sget(t, i)), desc="seq")
+            if self.entails(fr.st, maptag, timeout=500):
+                ks = T.mkeys(t)
+                return IterSpec(T.slen(ks), lambda i: mk_V(T.sget(ks, i)), desc="keys")
+            it = T.iter_of(t)      # collection kind only known by tag: a sequence iterates itself, a dict/set its keys
+            return IterSpec(T.slen(it), lambda i: mk_V(T.sget(it, i)), desc="iter")
         if x.k == "sdict":
             keys = list(x.t)
             return self.iterspec(mk_tuple([mk_str(k) for k in keys]), fr)
@@ -1016,7 +1031,9 @@ class Engine:
             body = self.as_V(spec.elem(i))
         finally:
             self._bound = bound
-        facts = z3.And(T.is_VObj(r), T.tag(r) == T.TAG["tuple"], T.slen(r) == z3.If(spec.length >= 0, spec.length, 0))
+        facts = z3.And(T.is_VObj(r), T.tag(r) == T.TAG["tuple"], T.slen(r) == z3.If(spec.length >= 0, spec.length, 0), T.slen(r) >= 0)
+        if z3.is_app(spec.length) and spec.length.decl().name() == "slen":
+            facts = z3.And(facts, spec.length >= 0)      # instance of slen_nonneg, kept quantifier-free for path pruning
         if bound:
             st.assume(z3.ForAll(bound, facts, patterns=[r]))
         else:
@@ -1261,6 +1278,10 @@ class Engine:
                 r = call_builtin(self, p, args, kwargs, fr, node)
                 if r is not None:
                     return r
+                if p.recv is None and p.name in self.reg.pure_ext:
+                    # an external modelled as an uninterpreted function (it cannot fork inside an expression: a raise
+                    # of such a call is only modelled where it is a statement-level call)
+                    return self.ext_value(p.name, list(args), fr, kwargs)
                 raise Unsupported(f"call to {p.name} inside an expression")
             if isinstance(p, FuncRef) and isinstance(p.node, ast.Lambda):
                 return self.inline_lambda(p, args, kwargs, fr)
